@@ -670,7 +670,7 @@ class Engine:
             if op and '::' in s[:op] or op and re.match(r'^[\w:<>]+$', s[:op]):
                 path = strip_generics(s[:op])
                 return self.mk_adt(path, [self.eval_operand(st, x) for x in split_top(s[op + 1:-1])])
-        if re.match(r'^[\w:<>, &\[\]\']+$', s):
+        if re.match(r'^[\w:<>, &\[\]\']+$', s) or re.match(r'^[\w:<>, &\[\]\']+$', strip_generics(s)):
             return self.mk_adt(strip_generics(s), [])
         raise ValueError('rvalue? ' + s)
 
